@@ -16,7 +16,7 @@ echo "== demo with patch" >> $LOG
 if run_demo; then with=pass; else with=fail; fi
 echo "== suite with patch" >> $LOG
 for t in $tests; do rm -f tests/$t.rs; done
-timeout 3000 cargo test --workspace --no-fail-fast --offline 2>&1 | grep -E "^test .* (FAILED|failed)|^error" | sort -u > $O/suite_failures.txt
+timeout 3000 cargo test --workspace --no-fail-fast --offline 2>&1 | grep -E "^test .* FAILED$" | sort -u > $O/suite_failures.txt
 suite=$(grep -v -E "package_and_post|prime_redirect" $O/suite_failures.txt | wc -l)
 git checkout -q -- . ; git clean -fdq -e target -e Cargo.lock
 for f in $O/demo/*.rs; do cp "$f" tests/; done
